@@ -407,6 +407,18 @@ def build_doc(recipe):
         voids = [t for r in roots if isinstance(r, Tag) for t in r.find_all(True) if t.can_be_empty_element]
         for t in voids[:3]:
             t.append(rng.choice([Tag(name="b"), NavigableString("in-void"), Comment("c")]))
+    if recipe.get("empties"):
+        # empty (falsy) string nodes: tag.string = "", appended "" and Comment("") - they are children like any other
+        rng = _random.Random(recipe["empties"])
+        tags = [t for r in roots if isinstance(r, Tag) for t in [r] + r.find_all(True)]
+        for t in rng.sample(tags, min(3, len(tags))):
+            k = rng.randrange(3)
+            if k == 0 and not t.contents:
+                t.string = ""
+            elif k == 1:
+                t.append(NavigableString(""))
+            else:
+                t.insert(0, Comment(""))
     if recipe.get("nset"):
         rng = _random.Random(recipe["nset"])
         for r in roots:
